@@ -21,6 +21,9 @@ type IndexOp struct {
 	Labels []string `json:"labels,omitempty"`
 	Cache  int      `json:"cache,omitempty"` // addCache / write: index into Caches
 	Mutate bool     `json:"mutate,omitempty"`
+	// CtxDone: InvalidateByLabels gets an already cancelled context (the deleters of this harness, like the
+	// library's backends, do not look at it: the call must behave as with a live one).
+	CtxDone bool `json:"ctx_done,omitempty"`
 }
 
 // IndexCache is one deleter registered under a cache name.
@@ -138,6 +141,8 @@ func genC15(r *rand.Rand, run int, _ string) *Scenario {
 			// the same label twice in one call
 			op.Labels = append(op.Labels, op.Labels[r.IntN(len(op.Labels))])
 		}
+
+		op.CtxDone = chance(r, 0.08)
 
 		return op
 	}
@@ -475,7 +480,18 @@ func (r *ixRun) exec(ci int, op *IndexOp) *ixRec {
 				}
 			}()
 
-			rec.n, rec.err = r.ix.InvalidateByLabels(context.Background(), op.Labels...)
+			ctx := context.Background()
+
+			if op.CtxDone {
+				c, cancel := context.WithCancel(ctx)
+				cancel()
+
+				ctx = c
+
+				e.out.fault("ctx_cancelled_before_call")
+			}
+
+			rec.n, rec.err = r.ix.InvalidateByLabels(ctx, op.Labels...)
 		}()
 
 		rec.ret = e.s.NextSeq()
@@ -715,6 +731,10 @@ func (r *ixRun) checkConcurrent() {
 // InvCall is one Invalidate call of a client.
 type InvCall struct {
 	SleepNs int64 `json:"sleep_ns,omitempty"` // sleep before the call
+	// Ctx: "" background; "cancelled": the caller's context is already cancelled; "cancel_in_cb": it is
+	// cancelled while the first callback runs; "deadline": its deadline has passed. The property has no
+	// exception for any of them: an accepted call runs every callback.
+	Ctx string `json:"ctx,omitempty"`
 }
 
 // InvScenario drives an Invalidator.
@@ -750,7 +770,8 @@ func genC17(r *rand.Rand, _ int, _ string) *Scenario {
 
 		n := 1 + r.IntN(4)
 		for i := 0; i < n; i++ {
-			calls = append(calls, InvCall{SleepNs: pick(r, int64(0), 0, 1, si-1, si, si+1, si/2, 2*si, 3*si+7)})
+			calls = append(calls, InvCall{SleepNs: pick(r, int64(0), 0, 1, si-1, si, si+1, si/2, 2*si, 3*si+7),
+				Ctx: pick(r, "", "", "", "", "", "cancelled", "cancel_in_cb", "deadline")})
 		}
 
 		iv.Clients = append(iv.Clients, calls)
@@ -762,6 +783,7 @@ func genC17(r *rand.Rand, _ int, _ string) *Scenario {
 }
 
 type invRec struct {
+	cancel      context.CancelFunc
 	client, idx int
 	inv, ret    uint64
 	invT, retT  int64
@@ -797,6 +819,11 @@ func runInvalidator(e *env) {
 			e.logf("callback %d enter", c)
 			zs.Yield("callback")
 
+			if rec != nil && rec.cancel != nil && c == 0 {
+				rec.cancel() // the caller gives up while its accepted invalidation is running
+				out.fault("ctx_cancelled_during_callback")
+			}
+
 			if d := sc.CallbackSleep[c]; d > 0 {
 				zs.Sleep(dur(d))
 			}
@@ -825,8 +852,36 @@ func runInvalidator(e *env) {
 				rec := &invRec{client: ci, idx: oi, inv: e.s.NextSeq(), invT: time.Now().UnixNano()}
 				recs = append(recs, rec)
 				cur[e.s.CurID()] = rec
-				e.logf("invoke c%d.%d Invalidate", ci, oi)
-				rec.err = i.Invalidate(context.Background())
+				e.logf("invoke c%d.%d Invalidate ctx=%q", ci, oi, call.Ctx)
+
+				ctx := context.Background()
+
+				switch call.Ctx {
+				case "cancelled":
+					c, cancel := context.WithCancel(ctx)
+					cancel()
+
+					ctx = c
+
+					out.fault("ctx_cancelled_before_call")
+				case "deadline":
+					c, cancel := context.WithDeadline(ctx, time.Now().Add(-time.Second))
+					defer cancel()
+
+					ctx = c
+
+					out.fault("ctx_deadline_passed")
+				case "cancel_in_cb":
+					c, cancel := context.WithCancel(ctx)
+					ctx, rec.cancel = c, cancel
+				}
+
+				rec.err = i.Invalidate(ctx)
+
+				if rec.cancel != nil {
+					rec.cancel()
+				}
+
 				rec.ret = e.s.NextSeq()
 				rec.retT = time.Now().UnixNano()
 				e.logf("return c%d.%d Invalidate -> %v", ci, oi, rec.err)
